@@ -171,12 +171,16 @@ Definition expect (mo : mon) (o : op) (r : outcome Z) : option (list (Z * Z * Z 
       Some (close_cbs (mo_subs mo), mkMon (mo_now mo) true (map close_msub (mo_subs mo)) (mo_pubs mo) (mo_clones mo) (mo_keys mo))
   | Stall | Drain => keep        (* a full to-driver ring changes nothing the property talks about: in particular a subscription
                                     dropped while the ring is full still has every image reported unavailable exactly once *)
+  | ChanErr now =>
+      (* a channel endpoint error on the subscriptions' channel: every still registered subscription loses all its images (each
+         reported unavailable, closed) and is forgotten - later announcements for it are ignored; the client stays open *)
+      Some (close_cbs (mo_subs mo), mkMon (mo_now mo) (mo_closed mo) (map close_msub (mo_subs mo)) (mo_pubs mo) (mo_clones mo) (mo_keys mo))
   end.
 
 Definition op_now (mo : mon) (o : op) : Z :=
   match o with
   | Subscribe now | Publish now _ _ | Avail now _ _ _ | Unavail now _ _ | Tick now
-  | DropSub now _ | DropPub now _ | CloseClient now => now
+  | DropSub now _ | DropPub now _ | CloseClient now | ChanErr now => now
   | Hold _ _ | Unhold _ | Stall | Drain => mo_now mo
   end.
 
@@ -203,6 +207,12 @@ Definition op_in_domain (mo : mon) (o : op) (r : outcome Z) : bool :=
   | _ => true
   end.
 
+(* the clones of images the application has kept: each is open (0) or closed and silent (1). The harness polls every closed
+   clone with every poll flavour (poll, bounded_poll, controlled_poll, bounded_controlled_poll, controlled_peek, block_poll)
+   while an unread frame sits in its log; a withdrawn image "is no longer polled": a poll that still delivers a fragment or
+   a block, or moves the subscriber position, shows as a value of 2 or more. *)
+Definition clones_ok (held : list Z) : bool := forallb (fun v => (v =? 0) || (v =? 1)) held.
+
 Definition mon_step (lg : Z) (mo : mon) (o : op) (ob : obs) : verdict :=
   match ob with
   | OPanic => if in_lim (op_now mo o) && (mo_now mo <=? op_now mo o) then Bad else Outside
@@ -214,7 +224,7 @@ Definition mon_step (lg : Z) (mo : mon) (o : op) (ob : obs) : verdict :=
           let now := op_now mo o in
           let mo2 := mkMon now (mo_closed mo1) (mo_subs mo1) (mo_pubs mo1) (mo_clones mo1) (mo_keys mo1) in
           let mo3 := mkMon now (mo_closed mo2) (mo_subs mo2) (mo_pubs mo2) (mo_clones mo2) (refresh_keys mo2 now) in
-          if cbs_eqb cbs ecbs && views_eqb views (expect_views mo3) && maps_ok lg now mo3 maps
+          if cbs_eqb cbs ecbs && views_eqb views (expect_views mo3) && maps_ok lg now mo3 maps && clones_ok held
           then Next mo3 else Bad
       end
   end.
